@@ -285,11 +285,11 @@ def bookkeeping(chk: Check, init):
         if isinstance(n, ast.Call):
             t = R.expr(init, n)
             if t[0] == "call" and t[1].endswith("::RawDisk") and len(t[2]) >= 2:
-                sz = t[2][1]
+                sz = _through_size_property(chk, t[2][1])
                 ok = sz[0] == "op" and sz[1] == "mul" and S.C(512) in (sz[2], sz[3]) and any(x[0] == "attr" and x[2] == "sectors" for x in (sz[2], sz[3]))
                 chk.decide(ok, "K-FORMULA", "flat-extent-size", n, "a flat extent occupies extent.sectors * 512 bytes", found=S.show(sz)[:160])
             if t[0] == "call" and t[1].endswith("::ZeroDisk") and len(t[2]) >= 1:
-                sz = t[2][0]
+                sz = _through_size_property(chk, t[2][0])
                 ok = sz[0] == "op" and sz[1] == "mul" and S.C(512) in (sz[2], sz[3]) and any(x[0] == "attr" and x[2] == "sectors" for x in (sz[2], sz[3]))
                 chk.decide(ok, "K-FORMULA", "zero-extent-size", n, "a zero extent occupies extent.sectors * 512 bytes", found=S.show(sz)[:160])
 
@@ -335,6 +335,27 @@ def _storage_walk_by_evaluation(chk: Check, ctx, loop, streams, lookup):
                f"{n} model requests over one, three and four storages read every sector from the stream of the storage it belongs to, at "
                "(sector - start) * 512" if not bad else "; ".join(bad[:2]))
     return not bad
+
+
+def _through_size_property(chk: Check, sz):
+    """`extent.size` where ExtentDescriptor.size is a property whose body is `self.sectors * <512>`: that product for this extent."""
+    if sz[0] == "attr" and sz[2] == "size" and chk.prog.has_func(VREL, "ExtentDescriptor.size"):
+        ci = chk.prog.cls(VREL, "ExtentDescriptor")
+        if ci.is_property("size"):
+            fn = ci.methods["size"]
+            body = [x for x in fn.body if not (isinstance(x, ast.Expr) and isinstance(x.value, ast.Constant))]
+            if len(body) == 1 and isinstance(body[0], ast.Return) and isinstance(body[0].value, ast.BinOp) and isinstance(body[0].value.op, ast.Mult):
+                selfname = fn.args.args[0].arg
+                l_, r_ = body[0].value.left, body[0].value.right
+                for field, const in ((l_, r_), (r_, l_)):
+                    if isinstance(field, ast.Attribute) and isinstance(field.value, ast.Name) and field.value.id == selfname:
+                        try:
+                            c = chk.prog.fold(const, ci.mod, ci)
+                        except NotConst:
+                            continue
+                        if isinstance(c, int):
+                            return S.op("mul", ("attr", sz[1], field.attr), S.C(c))
+    return sz
 
 
 def vmdk_walk(chk: Check):
